@@ -7,7 +7,7 @@ from mc.core import Acc, Hang
 ID = "C08"
 RULE = ("E-INPUT: every multiset of <= 3 (thorough <= 4) data over times {0,1,1.5,4,9,10} x widths {20,55} x text {absent,'ab'} "
         "(+ a seeded time) x 4 directions x 5 engine option sets (label spacing 3 or 5, bounds, simple algorithm) x layer gaps "
-        "{1, 17.5, 60} (SVG; TikZ at gap 17.5), real export parsed into rectangles. Oracle: pairwise disjoint, wholly on the "
+        "{1, 17.5, 60} (SVG; TikZ at gap 17.5), 3 label paddings in rotation, real export parsed into rectangles. Oracle: pairwise disjoint, wholly on the "
         "direction's side at >= layerGap-1 from the axis, farther layers wholly beyond nearer ones. "
         "Non-trivial: >= 2 labels whose unconstrained extents along the axis intersect.")
 ASSUMPTIONS = ["label spacing >= 3 and layer gap >= 1 as the statement restricts", "explicit widths only"]
@@ -15,6 +15,7 @@ REQUIRED_COUNTERS = ("exports", "conflicting", "multi_layer")
 TIMES = (0, 1, 1.5, 4, 9, 10)
 ENG = ({}, {"maxPos": 100}, {"maxPos": 70, "algorithm": "simple"}, {"nodeSpacing": 5, "minPos": 10, "maxPos": 120}, {"nodeSpacing": 5})
 GAPS = (1, 17.5, 60)
+PADS = (None, {"left": 12, "right": 12, "top": 3, "bottom": 2}, {"left": 1, "right": 0, "top": 9, "bottom": 8})
 
 
 def bounds(tier, seed):
@@ -28,9 +29,12 @@ def _seed_time(seed):
 def judge(case, acc=None):
     from labella.scale import LinearScale
     data = [dict(d) for d in case["data"]]
-    direction, ei, gap, backend = case["cfg"]
+    direction, ei, gap, backend = case["cfg"][:4]
     opts = {"scale": LinearScale(), "direction": direction, "labella": dict(ENG[ei]), "layerGap": gap,
             "initialWidth": 200, "initialHeight": 200, "domain": [0, 10]}
+    pad = PADS[case["cfg"][4]] if len(case["cfg"]) > 4 else None
+    if pad:
+        opts["labelPadding"] = dict(pad)
     try:
         doc, tl, R = dc.run_export(backend, data, opts)
     except Hang:
@@ -102,7 +106,8 @@ def run_shard(shard):
             for ei in range(len(ENG)):
                 for gap in GAPS:
                     for backend in (("svg", "tex") if gap == 17.5 else ("svg",)):
-                        case = {"data": data, "cfg": [direction, ei, gap, backend]}
+                        # label padding variants rotate over the cases so every variant meets every configuration
+                        case = {"data": data, "cfg": [direction, ei, gap, backend, (idx + ei + GAPS.index(gap)) % len(PADS)]}
                         bad = judge(case, acc)
                         acc.evals += 1
                         acc.trans += 1
@@ -118,7 +123,7 @@ def replay(case):
 
 
 def snippet(case):
-    direction, ei, gap, backend = case["cfg"]
+    direction, ei, gap, backend = case["cfg"][:4]
     return ("from labella.scale import LinearScale\nfrom labella.timeline import TimelineSVG, TimelineTex\n"
             "opts={'scale':LinearScale(),'direction':%r,'labella':%r,'layerGap':%r,'initialWidth':200,'initialHeight':200,'domain':[0,10]}\n"
             "print(%s(%r, opts).export())" % (direction, ENG[ei], gap, "TimelineSVG" if backend == "svg" else "TimelineTex", case["data"]))
